@@ -203,6 +203,8 @@ TWINS = [
     ('inertia-mul-whole-A', 'C20', 'spatialvector.py', '            return SpatialForce(left.binop(right, lambda x, y: x @ y))  # F = ma', '            return SpatialForce(left.A @ right.A)  # F = ma', 'R8', 'SpatialInertia.__mul__'),
     ('dq-norm-sqrt-dual', 'C12', 'DualQuaternion.py', '        return (base.sqrt(a.s), b.s / (2 * base.sqrt(a.s)))', '        return (base.sqrt(a.s), base.sqrt(b.s))', 'R16', 'norm'),
     ('so3-rpy-stack-T', 'C09', 'pose3d.py', 'return np.array([base.tr2rpy(x, unit=unit, order=order) for x in self.A])', 'return np.array([base.tr2rpy(x, unit=unit, order=order) for x in self.A]).T', 'R8', 'SO3.rpy'),
+    ('plane-p3-ismatrix', 'C19', 'geom3d.py', '        p = base.getmatrix(p, (3,3))', '        p = base.ismatrix(p, (3,3))', 'R20', 'Plane.P3'),
+    ('plane-p3-ctor-arity', 'C19', 'geom3d.py', '        return cls.PN(v1, n)', '        return cls(n, v1)', 'R1a', 'Plane.P3'),
 ]
 
 
